@@ -10,7 +10,15 @@ use std::sync::Arc;
 fn main() {
   let comp = std::env::args().nth(1).unwrap_or_else(|| "stack".into());
   let par: usize = std::env::var("VERIF_E2E_PAR").ok().and_then(|s| s.parse().ok()).unwrap_or(24);
-  std::panic::set_hook(Box::new(|_| {}));
+  // Panics of the library's own tasks do not end the process: they are recorded (place of the panic) so that the scenario
+  // during which one happened can report it. VERIF_PANIC_LOG=1 also prints them.
+  std::panic::set_hook(Box::new(|info| {
+    let place = info.location().map(|l| format!("{}:{}", l.file(), l.line())).unwrap_or_else(|| "?".into());
+    if std::env::var("VERIF_PANIC_LOG").is_ok() {
+      eprintln!("PANIC-IN-PROCESS at {}", place);
+    }
+    stack::note_panic(place);
+  }));
   // `VERIF_URING=<recv bufs>x<recv size>x<send bufs>x<send size>[,zc][,noms]`: start the global io_uring backend (a per-process
   // singleton) with these pool sizes; sockets opt in with `uring=1`.
   if let Ok(spec) = std::env::var("VERIF_URING") {
@@ -69,9 +77,18 @@ fn main() {
           sem.clone().acquire_owned().await.unwrap()
         };
         let l = line.trim_start_matches('!').to_string();
+        let before = stack::panics_so_far();
         let jh = tokio::spawn(async move { stack::scenario(&l).await });
         match jh.await {
-          Ok(s) => s,
+          Ok(s) => {
+            // a panic inside the library (a task of a socket, a session, the io_uring worker) while this scenario ran
+            let lib: Vec<String> = stack::panics_since(before).into_iter().filter(|p| !p.contains("harness/src")).collect();
+            if !lib.is_empty() && !s.starts_with("ORACLE-FAIL") && s != "PANIC" {
+              format!("ORACLE-FAIL key=library-panic a task of the library panicked at {} (the scenario itself reported: {})", lib[0], s)
+            } else {
+              s
+            }
+          }
           Err(e) => {
             if e.is_panic() {
               "PANIC".to_string()
